@@ -164,3 +164,480 @@ Proof.
   rewrite A1, A0. split; [lia|]. split; [lia|]. split; [lia|]. split; [intro; lia|].
   apply Forall_app; split; [exact F|]. constructor; [|constructor]. unfold fut_ok; cbn. reflexivity.
 Qed.
+
+(* a pending/unpolled future is live; its tickets are part of the mutex word *)
+Lemma fut_live_of x f fu : RInv x -> alookup f (r_futs x) = Some fu ->
+  fstatus_eqb (fm_st (rf_meta fu)) FDone = false ->
+  st_live (rf_st fu) /\ itick fu <= sw0 (r_sh x) /\ fhold fu <= nH x.
+Proof.
+  intros (E1 & E0 & Le & Ex & F) L V.
+  pose proof (Forall_lookup _ _ _ _ F L) as Ok. cbn [snd] in Ok. unfold fut_ok in Ok.
+  pose proof (asum_In itick _ _ _ (alookup_In _ _ _ L)) as Ti.
+  pose proof (asum_In fhold _ _ _ (alookup_In _ _ _ L)) as Hi.
+  unfold nT, nH in *. split; [|split; [lia | exact Hi]].
+  destruct (fm_st (rf_meta fu)); [exact Ok | exact Ok | discriminate].
+Qed.
+
+Lemma step_poll x f k : RInv x -> small x -> RInv (fst (rstep_core x (RPoll f k))).
+Proof.
+  intros I B. unfold rstep_core. cbv beta iota zeta.
+  destruct (alookup f (r_futs x)) as [fu|] eqn:L; [|exact I].
+  destruct (fstatus_eqb (fm_st (rf_meta fu)) FDone || Nat.leb 4 k) eqn:V; [exact I|].
+  apply Bool.orb_false_iff in V. destruct V as (V1 & _).
+  destruct (fut_live_of x f fu I L V1) as (Live & Ti & Hi).
+  destruct (bounds x I B) as (B0 & B1).
+  pose proof (RInv_mutex_even x I) as MEv.
+  destruct I as (E1 & E0 & Le & Ex & F).
+  pose proof (asum_aupdate itick f fu) as UT. pose proof (asum_aupdate fhold f fu) as UH.
+  unfold rfut_poll. unfold itick, fhold in Ti, Hi.
+  destruct (rf_st fu) as [c l | l | nr ws | hl l] eqn:ST; cbn [st_live] in Live.
+  - (* read() *)
+    pose proof (read_loop_spec RWFUEL (wtag f k) c l (r_sh x)) as P.
+    destruct (read_loop RWFUEL (wtag f k) c l (r_sh x)) as [[c' l'] s'|[c' l'] s'|[c' l'] s'];
+      (destruct P as (P1 & P2); [lia|]).
+    + destruct P2 as (P2 & P3). cbn [fst].
+      set (fu' := mkRfut (rf_arc fu) (FRead c' l') false (mkMeta FDone (Some (wtag f k)) false)).
+      specialize (UT fu' _ L). specialize (UH fu' _ L).
+      unfold itick, fhold in UT, UH. cbn [rf_st fu'] in UT, UH. rewrite ST in UT, UH.
+      assert (W0 : nW x + nH x = 0).
+      { rewrite E1 in P1. replace (2 * (nR x + nU x) + nW x + nH x) with ((nW x + nH x) + (nR x + nU x) * 2) in P1 by lia.
+        rewrite N.mod_add in P1 by lia. assert (nW x + nH x <= 1) by lia.
+        destruct (N.eq_dec (nW x + nH x) 0); [assumption|]. replace (nW x + nH x) with 1 in P1 by lia. discriminate. }
+      assert (G : RInv (r_bump_g (r_upd x s' (aupdate f fu' (r_futs x)) (r_guards x ++ [(r_ng x, (GR, rf_arc fu))])))).
+      { apply RInv_bump_g. unfold RInv, nR, nU, nW, nH, nT in *. cbn [r_sh r_futs r_guards r_upd]. gapp.
+        fold itick in UT. fold fhold in UH.
+        split; [lia|]. split; [lia|]. split; [lia|]. split; [intro; lia|].
+        apply Forall_aupdate; [exact F|]. unfold fut_ok. cbn. split; reflexivity. }
+      destruct (rf_arc fu && negb (rf_owns fu)); [apply RInv_inc|]; exact G.
+    + cbn [fst].
+      set (fu' := mkRfut (rf_arc fu) (FRead c' l') (rf_owns fu) (mkMeta FPending (Some (wtag f k)) false)).
+      specialize (UT fu' _ L). specialize (UH fu' _ L).
+      unfold itick, fhold in UT, UH. cbn [rf_st fu'] in UT, UH. rewrite ST in UT, UH.
+      unfold RInv, nR, nU, nW, nH, nT in *. cbn [r_sh r_futs r_guards r_upd].
+      fold itick in UT. fold fhold in UH.
+      split; [lia|]. split; [lia|]. split; [lia|]. split; [exact Ex|].
+      apply Forall_aupdate; [exact F|]. unfold fut_ok. cbn. exact I.
+    + cbn [fst].
+      set (fu' := mkRfut (rf_arc fu) (FRead c' l') (rf_owns fu) (mkMeta FPending (Some (wtag f k)) false)).
+      specialize (UT fu' _ L). specialize (UH fu' _ L).
+      unfold itick, fhold in UT, UH. cbn [rf_st fu'] in UT, UH. rewrite ST in UT, UH.
+      unfold RInv, nR, nU, nW, nH, nT in *. cbn [r_sh r_futs r_guards r_upd]. autorewrite with sw.
+      fold itick in UT. fold fhold in UH.
+      change (sw1 (set_err s')) with (sw1 s'). change (sw0 (set_err s')) with (sw0 s').
+      split; [lia|]. split; [lia|]. split; [lia|]. split; [exact Ex|].
+      apply Forall_aupdate; [exact F|]. unfold fut_ok. cbn. exact I.
+  - (* upgradable_read() *)
+    assert (B1' : sw1 (r_sh x) + 2 < USZ) by lia.
+    pose proof (upread_poll_spec (wtag f k) l (r_sh x) Live Ti B0 B1') as P.
+    destruct (upread_poll (wtag f k) l (r_sh x)) as [[l' s'] r]. destruct r.
+    + destruct P as (P1 & P2 & P3 & P4). specialize (MEv P1). cbn [fst].
+      set (fu' := mkRfut (rf_arc fu) (FUpRead l') false (mkMeta FDone (Some (wtag f k)) false)).
+      specialize (UT fu' _ L). specialize (UH fu' _ L).
+      unfold itick, fhold in UT, UH. cbn [rf_st fu'] in UT, UH. rewrite ST in UT, UH.
+      assert (G : RInv (r_bump_g (r_upd x s' (aupdate f fu' (r_futs x)) (r_guards x ++ [(r_ng x, (GU, rf_arc fu))])))).
+      { apply RInv_bump_g. unfold RInv, nR, nU, nW, nH, nT in *. cbn [r_sh r_futs r_guards r_upd]. gapp.
+        fold itick in UT. fold fhold in UH.
+        split; [lia|]. split; [lia|]. split; [lia|]. split; [intro; lia|].
+        apply Forall_aupdate; [exact F|]. unfold fut_ok, itick, fhold. cbn. split; [exact P3 | reflexivity]. }
+      destruct (rf_arc fu && negb (rf_owns fu)); [apply RInv_inc|]; exact G.
+    + destruct P as (P1 & P2 & P3 & P4). cbn [fst].
+      set (fu' := mkRfut (rf_arc fu) (FUpRead l') (rf_owns fu) (mkMeta FPending (Some (wtag f k)) false)).
+      specialize (UT fu' _ L). specialize (UH fu' _ L).
+      unfold itick, fhold in UT, UH. cbn [rf_st fu'] in UT, UH. rewrite ST in UT, UH.
+      unfold RInv, nR, nU, nW, nH, nT in *. cbn [r_sh r_futs r_guards r_upd].
+      fold itick in UT. fold fhold in UH.
+      split; [lia|]. split; [lia|]. split; [lia|]. split; [exact Ex|].
+      apply Forall_aupdate; [exact F|]. unfold fut_ok. cbn. exact P2.
+  - (* write() *)
+    destruct Live as (Live & NA).
+    assert (HB : ws <> WWaiting -> sw0 (r_sh x) + 2 < USZ /\ sw1 (r_sh x) + 2 < USZ /\ (sw0 (r_sh x) mod 2 = 0 -> sw1 (r_sh x) mod 2 = 0)).
+    { intros _. split; [exact B0|]. split; [lia|]. intro Ev. specialize (MEv Ev).
+      rewrite E1. replace (2 * (nR x + nU x) + nW x + nH x) with (0 + (nR x + nU x) * 2) by lia.
+      rewrite N.mod_add by lia. reflexivity. }
+    pose proof (write_loop_spec RWFUEL (wtag f k) nr ws (r_sh x) Live NA Ti HB) as P.
+    cbv zeta in P. destruct P as (P0 & P1 & P2 & P3 & P5 & P4).
+    destruct (write_loop RWFUEL (wtag f k) nr ws (r_sh x)) as [[nr' ws'] s'|[nr' ws'] s'|[nr' ws'] s'];
+      cbn [sh_after ws_after held_after] in *; cbn [fst].
+    + destruct P4 as (-> & P4).
+      set (fu' := mkRfut (rf_arc fu) (FWrite nr' WAcquired) false (mkMeta FDone (Some (wtag f k)) false)).
+      specialize (UT fu' _ L). specialize (UH fu' _ L).
+      unfold itick, fhold in UT, UH. cbn [rf_st fu' wtick hold_ws] in UT, UH. rewrite ST in UT, UH.
+      cbn [wtick hold_ws] in P0.
+      assert (Z : hold_ws ws = 0 -> nU x + nW x + nH x = 0) by (intro Q; apply MEv, P3; auto).
+      assert (HW : hold_ws ws = 0 \/ hold_ws ws = 1) by (destruct ws; cbn; auto).
+      assert (G : RInv (r_bump_g (r_upd x s' (aupdate f fu' (r_futs x)) (r_guards x ++ [(r_ng x, (GW, rf_arc fu))])))).
+      { apply RInv_bump_g. unfold RInv, nR, nU, nW, nH, nT in *. cbn [r_sh r_futs r_guards r_upd]. gapp.
+        fold itick in UT. fold fhold in UH.
+        split; [lia|]. split; [lia|]. split; [destruct HW as [Q|Q]; [specialize (Z Q)|]; lia|].
+        split; [intro; lia|].
+        apply Forall_aupdate; [exact F|]. unfold fut_ok, itick, fhold. cbn. split; reflexivity. }
+      destruct (rf_arc fu && negb (rf_owns fu)); [apply RInv_inc|]; exact G.
+    + set (fu' := mkRfut (rf_arc fu) (FWrite nr' ws') (rf_owns fu) (mkMeta FPending (Some (wtag f k)) false)).
+      specialize (UT fu' _ L). specialize (UH fu' _ L).
+      unfold itick, fhold in UT, UH. cbn [rf_st fu'] in UT, UH. rewrite ST in UT, UH.
+      assert (Z : hold_ws ws = 0 -> hold_ws ws' = 1 -> nU x + nW x + nH x = 0) by (intros Q Q'; apply MEv, P3; auto).
+      assert (HW : hold_ws ws = 0 \/ hold_ws ws = 1) by (destruct ws; cbn; auto).
+      assert (HW' : hold_ws ws' = 0 \/ hold_ws ws' = 1) by (destruct ws'; cbn; auto).
+      unfold RInv, nR, nU, nW, nH, nT in *. cbn [r_sh r_futs r_guards r_upd].
+      fold itick in UT. fold fhold in UH.
+      split; [lia|]. split; [lia|].
+      split; [destruct HW as [Q|Q]; destruct HW' as [Q'|Q']; try specialize (Z Q Q'); lia|].
+      split; [exact Ex|].
+      apply Forall_aupdate; [exact F|]. unfold fut_ok. cbn. split; assumption.
+    + set (fu' := mkRfut (rf_arc fu) (FWrite nr' ws') (rf_owns fu) (mkMeta FPending (Some (wtag f k)) false)).
+      specialize (UT fu' _ L). specialize (UH fu' _ L).
+      unfold itick, fhold in UT, UH. cbn [rf_st fu'] in UT, UH. rewrite ST in UT, UH.
+      assert (Z : hold_ws ws = 0 -> hold_ws ws' = 1 -> nU x + nW x + nH x = 0) by (intros Q Q'; apply MEv, P3; auto).
+      assert (HW : hold_ws ws = 0 \/ hold_ws ws = 1) by (destruct ws; cbn; auto).
+      assert (HW' : hold_ws ws' = 0 \/ hold_ws ws' = 1) by (destruct ws'; cbn; auto).
+      unfold RInv, nR, nU, nW, nH, nT in *. cbn [r_sh r_futs r_guards r_upd].
+      change (sw1 (set_err s')) with (sw1 s'). change (sw0 (set_err s')) with (sw0 s').
+      fold itick in UT. fold fhold in UH.
+      split; [lia|]. split; [lia|].
+      split; [destruct HW as [Q|Q]; destruct HW' as [Q'|Q']; try specialize (Z Q Q'); lia|].
+      split; [exact Ex|].
+      apply Forall_aupdate; [exact F|]. unfold fut_ok. cbn. split; assumption.
+  - (* upgrade *)
+    subst hl. cbn [negb].
+    pose proof (upgrade_loop_spec RWFUEL (wtag f k) l (r_sh x)) as P.
+    destruct (upgrade_loop RWFUEL (wtag f k) l (r_sh x)) as [l' s'|l' s'|l' s']; cbn [fst].
+    + destruct P as (P1 & P2 & P3).
+      set (fu' := mkRfut (rf_arc fu) (FUpgrade false l') false (mkMeta FDone (Some (wtag f k)) false)).
+      specialize (UT fu' _ L). specialize (UH fu' _ L).
+      unfold itick, fhold in UT, UH. cbn [rf_st fu'] in UT, UH. rewrite ST in UT, UH.
+      assert (G : RInv (r_bump_g (r_upd x s' (aupdate f fu' (r_futs x)) (r_guards x ++ [(r_ng x, (GW, rf_arc fu))])))).
+      { apply RInv_bump_g. unfold RInv, nR, nU, nW, nH, nT in *. cbn [r_sh r_futs r_guards r_upd]. gapp.
+        fold itick in UT. fold fhold in UH.
+        split; [lia|]. split; [lia|]. split; [lia|]. split; [intro; lia|].
+        apply Forall_aupdate; [exact F|]. unfold fut_ok, itick, fhold. cbn. split; reflexivity. }
+      destruct (rf_arc fu && negb (rf_owns fu)); [apply RInv_inc|]; exact G.
+    + destruct P as (P1 & P2).
+      set (fu' := mkRfut (rf_arc fu) (FUpgrade true l') (rf_owns fu) (mkMeta FPending (Some (wtag f k)) false)).
+      specialize (UT fu' _ L). specialize (UH fu' _ L).
+      unfold itick, fhold in UT, UH. cbn [rf_st fu'] in UT, UH. rewrite ST in UT, UH.
+      unfold RInv, nR, nU, nW, nH, nT in *. cbn [r_sh r_futs r_guards r_upd].
+      fold itick in UT. fold fhold in UH.
+      split; [lia|]. split; [lia|]. split; [lia|]. split; [exact Ex|].
+      apply Forall_aupdate; [exact F|]. unfold fut_ok. cbn. reflexivity.
+    + destruct P as (P1 & P2).
+      set (fu' := mkRfut (rf_arc fu) (FUpgrade true l') (rf_owns fu) (mkMeta FPending (Some (wtag f k)) false)).
+      specialize (UT fu' _ L). specialize (UH fu' _ L).
+      unfold itick, fhold in UT, UH. cbn [rf_st fu'] in UT, UH. rewrite ST in UT, UH.
+      unfold RInv, nR, nU, nW, nH, nT in *. cbn [r_sh r_futs r_guards r_upd].
+      change (sw1 (set_err s')) with (sw1 s'). change (sw0 (set_err s')) with (sw0 s').
+      fold itick in UT. fold fhold in UH.
+      split; [lia|]. split; [lia|]. split; [lia|]. split; [exact Ex|].
+      apply Forall_aupdate; [exact F|]. unfold fut_ok. cbn. reflexivity.
+Qed.
+
+Lemma odd_when_held x : RInv x -> 1 <= nW x + nH x -> sw1 (r_sh x) mod 2 = 1 /\ 1 <= sw0 (r_sh x).
+Proof.
+  intros (E1 & E0 & Le & _) H. split; [|lia].
+  rewrite E1. replace (2 * (nR x + nU x) + nW x + nH x) with (1 + (nR x + nU x) * 2) by lia.
+  rewrite N.mod_add by lia. reflexivity.
+Qed.
+
+Lemma step_dropfut x f : RInv x -> small x -> RInv (fst (rstep_core x (RDropFut f))).
+Proof.
+  intros I B. unfold rstep_core. cbv beta iota zeta.
+  destruct (alookup f (r_futs x)) as [fu|] eqn:L; [|exact I].
+  destruct (bounds x I B) as (B0 & B1).
+  pose proof (odd_when_held x I) as OW.
+  pose proof I as (E1 & E0 & Le & Ex & F).
+  pose proof (asum_aremove itick f fu _ L) as UT. pose proof (asum_aremove fhold f fu _ L) as UH.
+  pose proof (asum_In itick _ _ _ (alookup_In _ _ _ L)) as Ti.
+  pose proof (asum_In fhold _ _ _ (alookup_In _ _ _ L)) as Hi.
+  assert (G : RInv (r_upd x (rfut_drop (rf_st fu) (r_sh x)) (aremove f (r_futs x)) (r_guards x))).
+  { unfold rfut_drop.
+    destruct (rf_st fu) as [c l | l | nr ws | hl l] eqn:ST.
+    - assert (IT : itick fu = 0) by (unfold itick; rewrite ST; reflexivity).
+      assert (FH : fhold fu = 0) by (unfold fhold; rewrite ST; reflexivity).
+      unfold RInv, nR, nU, nW, nH, nT in *. cbn [r_sh r_futs r_guards r_upd]. autorewrite with sw.
+      split; [lia|]. split; [lia|]. split; [lia|]. split; [exact Ex|]. apply Forall_aremove. exact F.
+    - assert (IT : itick fu = lticket l) by (unfold itick; rewrite ST; reflexivity).
+      assert (FH : fhold fu = 0) by (unfold fhold; rewrite ST; reflexivity).
+      assert (Tl : lticket l <= getw W0 (r_sh x)) by (cbn [getw]; unfold nT in *; lia).
+      assert (Bl : getw W0 (r_sh x) < USZ) by (cbn [getw]; lia).
+      pose proof (lock_drop_spec W0 Base.E0 l (r_sh x) Tl Bl) as (D0 & Fr). cbn [getw] in D0.
+      pose proof (wframe_W0_sw1 _ _ Fr) as D1.
+      unfold RInv, nR, nU, nW, nH, nT in *. cbn [r_sh r_futs r_guards r_upd].
+      split; [lia|]. split; [lia|]. split; [lia|]. split; [exact Ex|]. apply Forall_aremove. exact F.
+    - assert (IT : itick fu = wtick ws) by (unfold itick; rewrite ST; reflexivity).
+      assert (FH : fhold fu = hold_ws ws) by (unfold fhold; rewrite ST; reflexivity).
+      assert (Tl : wtick ws <= sw0 (r_sh x)) by (unfold nT in *; lia).
+      assert (Bl : sw0 (r_sh x) < USZ) by lia.
+      assert (HW : ws = WWaiting -> sw1 (r_sh x) mod 2 = 1 /\ 1 <= sw0 (r_sh x)).
+      { intros ->. apply OW. cbn [hold_ws] in FH. unfold nH. lia. }
+      pose proof (write_drop_spec nr ws (r_sh x) Tl Bl HW) as (D0 & D1).
+      unfold RInv, nR, nU, nW, nH, nT in *. cbn [r_sh r_futs r_guards r_upd].
+      split; [lia|]. split; [lia|]. split; [lia|]. split; [exact Ex|]. apply Forall_aremove. exact F.
+    - assert (IT : itick fu = 0) by (unfold itick; rewrite ST; reflexivity).
+      assert (FH : fhold fu = if hl then 1 else 0) by (unfold fhold; rewrite ST; destruct hl; reflexivity).
+      assert (Bl : sw0 (r_sh x) < USZ) by lia.
+      assert (HW : hl = true -> sw1 (r_sh x) mod 2 = 1 /\ 1 <= sw0 (r_sh x)).
+      { intros ->. apply OW. unfold nH. lia. }
+      pose proof (upgrade_drop_spec hl l (r_sh x) Bl HW) as (D0 & D1).
+      unfold RInv, nR, nU, nW, nH, nT in *. cbn [r_sh r_futs r_guards r_upd].
+      split; [lia|]. split; [lia|]. split; [lia|]. split; [exact Ex|]. apply Forall_aremove. exact F. }
+  destruct (rf_owns fu); cbn [fst]; [apply RInv_dec|]; exact G.
+Qed.
+
+Lemma step_try x k arc : RInv x -> small x -> RInv (fst (rstep_core x (RTry k arc))).
+Proof.
+  intros I B. unfold rstep_core. cbv beta iota zeta.
+  destruct (Nat.eqb (r_handles x) 0); [exact I|].
+  destruct (bounds x I B) as (B0 & B1).
+  pose proof I as (E1 & E0 & Le & Ex & F).
+  destruct k.
+  - (* try_read *)
+    assert (B1' : sw1 (r_sh x) + 2 < USZ) by lia.
+    pose proof (try_read_spec (r_sh x) B1') as T. destruct (rw_try_read (r_sh x)) as [s' ok].
+    destruct T as (T1 & T2 & T0 & _). destruct ok.
+    + destruct (T1 eq_refl) as (Ev & P1).
+      assert (W0 : nW x + nH x = 0).
+      { rewrite E1 in Ev. replace (2 * (nR x + nU x) + nW x + nH x) with ((nW x + nH x) + (nR x + nU x) * 2) in Ev by lia.
+        rewrite N.mod_add in Ev by lia. assert (nW x + nH x <= 1) by lia.
+        destruct (N.eq_dec (nW x + nH x) 0); [assumption|]. replace (nW x + nH x) with 1 in Ev by lia. discriminate. }
+      assert (G : RInv (r_bump_g (r_upd x s' (r_futs x) (r_guards x ++ [(r_ng x, (GR, arc))])))).
+      { apply RInv_bump_g. unfold RInv, nR, nU, nW, nH, nT in *. cbn [r_sh r_futs r_guards r_upd]. gapp.
+        split; [lia|]. split; [lia|]. split; [lia|]. split; [intro; lia | exact F]. }
+      destruct arc; cbn [fst]; [apply RInv_inc|]; exact G.
+    + destruct (T2 eq_refl) as (_ & P1). cbn [fst].
+      unfold RInv, nR, nU, nW, nH, nT in *. cbn [r_sh r_futs r_guards r_upd].
+      split; [lia|]. split; [lia|]. split; [lia|]. split; [exact Ex | exact F].
+  - (* try_upgradable_read *)
+    assert (B1' : sw1 (r_sh x) + 2 < USZ) by lia.
+    pose proof (try_upgradable_read_spec (r_sh x) B1') as T. destruct (rw_try_upgradable_read (r_sh x)) as [s' ok].
+    destruct T as (T1 & T2). destruct ok.
+    + destruct (T1 eq_refl) as (Z & P0 & P1).
+      assert (G : RInv (r_bump_g (r_upd x s' (r_futs x) (r_guards x ++ [(r_ng x, (GU, arc))])))).
+      { apply RInv_bump_g. unfold RInv, nR, nU, nW, nH, nT in *. cbn [r_sh r_futs r_guards r_upd]. gapp.
+        split; [lia|]. split; [lia|]. split; [lia|]. split; [intro; lia | exact F]. }
+      destruct arc; cbn [fst]; [apply RInv_inc|]; exact G.
+    + destruct (T2 eq_refl) as (P0 & P1). cbn [fst].
+      unfold RInv, nR, nU, nW, nH, nT in *. cbn [r_sh r_futs r_guards r_upd].
+      split; [lia|]. split; [lia|]. split; [lia|]. split; [exact Ex | exact F].
+  - (* try_write *)
+    assert (B0' : sw0 (r_sh x) < USZ) by lia.
+    pose proof (try_write_spec (r_sh x) B0') as T. destruct (rw_try_write (r_sh x)) as [s' ok].
+    destruct T as (T1 & T2). destruct ok.
+    + destruct (T1 eq_refl) as (Z0 & P0 & Z1 & P1).
+      assert (G : RInv (r_bump_g (r_upd x s' (r_futs x) (r_guards x ++ [(r_ng x, (GW, arc))])))).
+      { apply RInv_bump_g. unfold RInv, nR, nU, nW, nH, nT in *. cbn [r_sh r_futs r_guards r_upd]. gapp.
+        split; [lia|]. split; [lia|]. split; [lia|]. split; [intro; lia | exact F]. }
+      destruct arc; cbn [fst]; [apply RInv_inc|]; exact G.
+    + destruct (T2 eq_refl) as (P0 & P1). cbn [fst].
+      unfold RInv, nR, nU, nW, nH, nT in *. cbn [r_sh r_futs r_guards r_upd].
+      split; [lia|]. split; [lia|]. split; [lia|]. split; [exact Ex | exact F].
+Qed.
+
+Lemma step_tryupgrade x g : RInv x -> RInv (fst (rstep_core x (RTryUpgrade g))).
+Proof.
+  intros I. unfold rstep_core. cbv beta iota zeta.
+  destruct (alookup g (r_guards x)) as [[[| |] arc]|] eqn:L; try exact I.
+  pose proof I as (E1 & E0 & Le & Ex & F).
+  pose proof (try_upgrade_spec (r_sh x)) as T. destruct (rw_try_upgrade (r_sh x)) as [s' ok].
+  destruct T as (T1 & T2 & T0). destruct ok; cbn [fst].
+  - destruct (T1 eq_refl) as (Z & P1). gsum3 L (GW, arc).
+    unfold RInv, nR, nU, nW, nH, nT in *. cbn [r_sh r_futs r_guards r_upd].
+    split; [lia|]. split; [lia|]. split; [lia|]. split; [intro; lia | exact F].
+  - destruct (T2 eq_refl) as (_ & ->). exact I.
+Qed.
+
+Lemma step_downgrade x g : RInv x -> small x -> RInv (fst (rstep_core x (RDowngrade g))).
+Proof.
+  intros I B. unfold rstep_core. cbv beta iota zeta.
+  destruct (bounds x I B) as (B0 & B1).
+  pose proof I as (E1 & E0 & Le & Ex & F).
+  destruct (alookup g (r_guards x)) as [[[| |] arc]|] eqn:L; try exact I; cbn [fst].
+  - (* upgradable -> read *)
+    gsum3 L (GR, arc).
+    destruct (downgrade_upgradable_read_spec (r_sh x)) as (D1 & D0); [unfold nU in *; lia | lia |].
+    unfold RInv, nR, nU, nW, nH, nT in *. cbn [r_sh r_futs r_guards r_upd].
+    split; [lia|]. split; [lia|]. split; [lia|]. split; [intro; lia | exact F].
+  - (* write -> read *)
+    gsum3 L (GR, arc).
+    destruct (downgrade_write_spec (r_sh x)) as (D1 & D0); [lia | unfold nW in *; lia | lia |].
+    unfold RInv, nR, nU, nW, nH, nT in *. cbn [r_sh r_futs r_guards r_upd].
+    assert (R0 : asum (isk GR) (r_guards x) = 0) by (apply Ex; lia).
+    split; [lia|]. split; [lia|]. split; [lia|]. split; [intro; lia | exact F].
+Qed.
+
+Lemma step_downgradeup x g : RInv x -> small x -> RInv (fst (rstep_core x (RDowngradeUp g))).
+Proof.
+  intros I B. unfold rstep_core. cbv beta iota zeta.
+  destruct (bounds x I B) as (B0 & B1).
+  pose proof I as (E1 & E0 & Le & Ex & F).
+  destruct (alookup g (r_guards x)) as [[[| |] arc]|] eqn:L; try exact I; cbn [fst].
+  gsum3 L (GU, arc).
+  destruct (downgrade_to_upgradable_spec (r_sh x)) as (D1 & D0); [lia|].
+  unfold RInv, nR, nU, nW, nH, nT in *. cbn [r_sh r_futs r_guards r_upd].
+  assert (R0 : asum (isk GR) (r_guards x) = 0) by (apply Ex; lia).
+  split; [lia|]. split; [lia|]. split; [lia|]. split; [intro; lia | exact F].
+Qed.
+
+Lemma step_dropguard x g : RInv x -> small x -> RInv (fst (rstep_core x (RDropGuard g))).
+Proof.
+  intros I B. unfold rstep_core. cbv beta iota zeta.
+  destruct (bounds x I B) as (B0 & B1).
+  pose proof (odd_when_held x I) as OW.
+  pose proof I as (E1 & E0 & Le & Ex & F).
+  destruct (alookup g (r_guards x)) as [[gk arc]|] eqn:L; [|exact I].
+  grem3 L.
+  assert (G : RInv (r_upd x match gk with GR => rw_read_unlock (r_sh x) | GU => rw_upgradable_read_unlock (r_sh x)
+                                     | GW => rw_write_unlock (r_sh x) end (r_futs x) (aremove g (r_guards x)))).
+  { destruct gk; cbn [gkind_eqb] in *.
+    - destruct (read_unlock_spec (r_sh x)) as (D1 & D0); [unfold nR in *; lia | lia |].
+      unfold RInv, nR, nU, nW, nH, nT in *. cbn [r_sh r_futs r_guards r_upd].
+      split; [lia|]. split; [lia|]. split; [lia|]. split; [intro; lia | exact F].
+    - destruct (upgradable_read_unlock_spec (r_sh x)) as (D1 & D0); [unfold nU in *; lia | lia | unfold nU in *; lia | lia |].
+      unfold RInv, nR, nU, nW, nH, nT in *. cbn [r_sh r_futs r_guards r_upd].
+      split; [lia|]. split; [lia|]. split; [lia|]. split; [intro; lia | exact F].
+    - destruct OW as (Od & H1); [unfold nW in *; lia|].
+      destruct (write_unlock_spec (r_sh x) Od H1) as (D1 & D0); [lia|].
+      unfold RInv, nR, nU, nW, nH, nT in *. cbn [r_sh r_futs r_guards r_upd].
+      split; [lia|]. split; [lia|]. split; [lia|]. split; [intro; lia | exact F]. }
+  destruct arc; cbn [fst]; [apply RInv_dec|]; exact G.
+Qed.
+
+Lemma step_core_RInv x o : RInv x -> small x -> RInv (fst (rstep_core x o)).
+Proof.
+  intros I B. destruct o.
+  - apply step_start; assumption.
+  - apply step_upgrade; assumption.
+  - apply step_poll; assumption.
+  - apply step_dropfut; assumption.
+  - apply step_try; assumption.
+  - apply step_tryupgrade; assumption.
+  - apply step_downgrade; assumption.
+  - apply step_downgradeup; assumption.
+  - apply step_dropguard; assumption.
+  - unfold rstep_core. cbv beta iota zeta. destruct (alookup g (r_guards x)); exact I.
+  - unfold rstep_core. cbv beta iota zeta. destruct (alookup g (r_guards x)) as [[[| |] a]|]; cbn [fst]; try exact I.
+  - unfold rstep_core. cbv beta iota zeta. destruct (Nat.eqb (r_handles x) 0); cbn [fst]; exact I.
+  - unfold rstep_core. cbv beta iota zeta. destruct (Nat.eqb (r_handles x) 0); [exact I|].
+    destruct (Nat.eqb (r_handles x) 1 && r_borrowed_alive x); cbn [fst]; exact I.
+Qed.
+
+Lemma small_x0 x : small x -> small (r_upd x (set_wk [] (r_sh x)) (r_futs x) (r_guards x)).
+Proof. exact (fun H => H). Qed.
+
+Lemma step_RInv x o : RInv x -> small x -> RInv (fst (rstep x o)).
+Proof.
+  intros I B. unfold rstep.
+  set (x0 := r_upd x (set_wk [] (r_sh x)) (r_futs x) (r_guards x)).
+  assert (I0 : RInv x0) by exact I.
+  pose proof (step_core_RInv x0 o I0 (small_x0 x B)) as H.
+  destruct (rstep_core x0 o) as [x1 r]. cbn [fst] in *. apply RInv_wake. exact H.
+Qed.
+
+Lemma sizes_grow x o :
+  (length (r_futs (fst (rstep x o))) + length (r_guards (fst (rstep x o))) <= S (length (r_futs x) + length (r_guards x)))%nat.
+Proof.
+  unfold rstep.
+  set (x0 := r_upd x (set_wk [] (r_sh x)) (r_futs x) (r_guards x)).
+  assert (L0 : (length (r_futs x0) + length (r_guards x0) = length (r_futs x) + length (r_guards x))%nat) by reflexivity.
+  destruct (rstep_core x0 o) as [x1 r] eqn:E. cbn [fst].
+  unfold r_wake_all, r_upd. cbn [r_futs r_guards]. rewrite map_length. rewrite <- L0. clear L0.
+  revert E. generalize x0. clear x x0. intros x E. unfold rstep_core in E.
+  destruct o; cbv beta iota zeta in E.
+  all: repeat match type of E with
+       | context [match ?d with _ => _ end] => destruct d eqn:?
+       end; inversion E; subst;
+       unfold r_inc, r_dec, r_bump_g, r_bump_f, r_upd, r_set_handles, r_set_val; cbn [r_futs r_guards];
+       rewrite ?app_length, ?aupdate_length; cbn [length]; try lia.
+  all: repeat match goal with H : alookup ?k ?l = Some _ |- _ => pose proof (alookup_aremove_length _ _ _ H); clear H end; try lia.
+Qed.
+
+Lemma run_RInv_gen ops : forall x, RInv x ->
+  2 * N.of_nat (length ops + (length (r_futs x) + length (r_guards x))) + 8 < USZ ->
+  RInv (fold_left (fun x o => fst (rstep x o)) ops x).
+Proof.
+  induction ops as [|o ops IH]; intros x I B; cbn [fold_left]; [exact I|].
+  apply IH.
+  - apply step_RInv; [exact I|]. unfold small. cbn [length] in B. lia.
+  - pose proof (sizes_grow x o). cbn [length] in B. lia.
+Qed.
+
+Lemma RInv_init : RInv rw0.
+Proof. unfold RInv, nR, nU, nW, nH, nT. cbn. repeat split; auto; lia. Qed.
+
+Definition OPS_BOUND : N := 4611686018427387904.   (* 2^62 *)
+
+Theorem run_RInv ops : N.of_nat (length ops) < OPS_BOUND -> RInv (rrun ops).
+Proof.
+  intro B. apply run_RInv_gen; [apply RInv_init|].
+  cbn [rw0 r_futs r_guards length]. unfold OPS_BOUND in B. rewrite USZ_val. lia.
+Qed.
+
+Lemma run_sizes ops : forall x,
+  (length (r_futs (fold_left (fun x o => fst (rstep x o)) ops x)) +
+   length (r_guards (fold_left (fun x o => fst (rstep x o)) ops x))
+   <= length ops + (length (r_futs x) + length (r_guards x)))%nat.
+Proof.
+  induction ops as [|o l IH]; intro z; cbn [fold_left length]; [lia|].
+  specialize (IH (fst (rstep z o))). pose proof (sizes_grow z o). lia.
+Qed.
+Lemma run_small ops : N.of_nat (length ops) < OPS_BOUND -> small (rrun ops).
+Proof.
+  intro B. unfold small, rrun. pose proof (run_sizes ops rw0) as S. cbn [rw0 r_futs r_guards length] in S.
+  unfold OPS_BOUND in B. rewrite USZ_val. lia.
+Qed.
+
+(* ---- consequences ---- *)
+(* C02: many readers xor one writer, at most one upgradable reader *)
+Theorem rw_exclusion ops : N.of_nat (length ops) < OPS_BOUND ->
+  let x := rrun ops in
+  nW x <= 1 /\ nU x <= 1 /\ (nW x = 1 -> nR x = 0 /\ nU x = 0).
+Proof.
+  intros B x. destruct (run_RInv ops B) as (_ & _ & Le & Ex & _). fold x in Le, Ex.
+  split; [lia|]. split; [lia|]. intro W1. split; [apply Ex; lia | lia].
+Qed.
+
+(* C11: at most one of {upgradable guard, write guard, writer waiting for readers, pending upgrade} *)
+Theorem rw_single_converter ops : N.of_nat (length ops) < OPS_BOUND ->
+  let x := rrun ops in nU x + nW x + nH x <= 1.
+Proof. intros B x. apply (run_RInv ops B). Qed.
+
+(* the protected value changes only through a write guard *)
+Lemma value_changes_only_by_writer x o :
+  r_val (fst (rstep x o)) <> r_val x ->
+  exists g a, o = RBump g /\ alookup g (r_guards x) = Some (GW, a).
+Proof.
+  unfold rstep.
+  set (x0 := r_upd x (set_wk [] (r_sh x)) (r_futs x) (r_guards x)).
+  assert (V0 : r_val x0 = r_val x) by reflexivity.
+  assert (G0 : r_guards x0 = r_guards x) by reflexivity.
+  destruct (rstep_core x0 o) as [x1 r] eqn:E. cbn [fst].
+  unfold r_wake_all, r_upd. cbn [r_val]. rewrite <- V0, <- G0. clear V0 G0.
+  revert E. generalize x0. clear x x0. intros x E N. unfold rstep_core in E.
+  destruct o; cbv beta iota zeta in E;
+    try (exfalso; apply N; clear N;
+         repeat match type of E with
+         | context [match ?d with _ => _ end] => destruct d eqn:?
+         end; inversion E; subst; reflexivity).
+  destruct (alookup g (r_guards x)) as [[[| |] a]|] eqn:L; inversion E; subst; try (exfalso; apply N; reflexivity).
+  exists g, a. split; [reflexivity | exact L].
+Qed.
+
+(* result of try_* in a state where somebody holds / waits for the write side *)
+Lemma try_fails_when_writer x k arc : RInv x -> small x -> r_handles x <> 0%nat ->
+  1 <= nW x + nH x -> o_res (snd (rstep x (RTry k arc))) = RNone.
+Proof.
+  intros I B Hh H1. destruct (bounds x I B) as (B0 & B1).
+  destruct (odd_when_held x I H1) as (Od & S0).
+  unfold rstep, rstep_core. cbv beta iota zeta. cbn [r_upd r_handles r_sh r_futs r_guards r_ng].
+  destruct (Nat.eqb (r_handles x) 0) eqn:Eh; [apply Nat.eqb_eq in Eh; contradiction|].
+  set (s0 := set_wk [] (r_sh x)).
+  assert (A1 : sw1 s0 = sw1 (r_sh x)) by reflexivity. assert (A0 : sw0 s0 = sw0 (r_sh x)) by reflexivity.
+  destruct k.
+  - pose proof (try_read_spec s0) as T. destruct (rw_try_read s0) as [s' ok].
+    destruct T as (T1 & _); [rewrite A1; lia|]. destruct ok; [|reflexivity].
+    destruct (T1 eq_refl) as (Ev & _). rewrite A1, Od in Ev. discriminate.
+  - pose proof (try_upgradable_read_spec s0) as T. destruct (rw_try_upgradable_read s0) as [s' ok].
+    destruct T as (T1 & _); [rewrite A1; lia|]. destruct ok; [|reflexivity].
+    destruct (T1 eq_refl) as (Z & _). rewrite A0 in Z. lia.
+  - pose proof (try_write_spec s0) as T. destruct (rw_try_write s0) as [s' ok].
+    destruct T as (T1 & _); [rewrite A0; lia|]. destruct ok; [|reflexivity].
+    destruct (T1 eq_refl) as (Z & _). rewrite A0 in Z. lia.
+Qed.
